@@ -5,7 +5,7 @@
 # `setup --reconfigure` on a copy, whose build files message() every tracked get_option()) that never becomes part of
 # the history.  Oracle: LifecycleModel (plain dicts, written from the docs and the property text) + the free
 # differential oracle (two histories with the same model state must be observationally equal).
-import copy, ctypes, hashlib, json, os, pickle, re, shutil, sys, time, zlib
+import copy, ctypes, json, os, pickle, re, resource, shutil, sys, time, zlib
 from verif.core import Check, pmap, run_main, scratch_root, NCPU, hard_exit
 from verif import mesonproc as mp
 
@@ -777,7 +777,7 @@ def main():
     capped = False
     viols = []           # (key, what, hist, res)
     levels_done = 0
-    t_levels = []
+    t_levels, level_sizes = [], []
     for d in range(1, depth + 1):
         if not level:
             break
@@ -790,6 +790,7 @@ def main():
                 break
         FRONTIER = level
         expanded += len(level)
+        level_sizes.append(len(level))
         items = [(si, c) for si in range(len(level)) for c in alphabet]
         nxt = []
         t_lv = time.time()
@@ -917,7 +918,8 @@ def main():
             differential_comparisons=n_diff, pruned_after_violation=n_pruned_viol, continued_tainted=n_tainted_cont,
             states_with_yield_override=yield_over, states_with_augment=augs, cold_histories=cold_checked,
             transitions_by_kind=per_kind, clause_counters=facts, unspecified=unspec_reasons,
-            violation_confirmations=2 * len(to_confirm), level_wall_s=t_levels)
+            violation_confirmations=2 * len(to_confirm), level_wall_s=t_levels, expanded_per_level=level_sizes,
+            cpu_s_all_processes=round(sum(resource.getrusage(resource.RUSAGE_CHILDREN)[:2]) + sum(resource.getrusage(resource.RUSAGE_SELF)[:2]), 1))
     ck.finish(states=len(states), transitions=n_trans, traces_validated_against_impl=n_trans,
               skipped_unspecified=n_unspec, distinct_edge_classes=len(edge_classes),
               rule='BFS over all command histories <= %d over %d commands from a fresh `meson setup`; product states merged on '
